@@ -198,7 +198,64 @@ pub fn run_tree(t: &GTree, start_path: &[usize], params: &[HParams], sink: &mut 
     run_tree_with(HVocab::new, t, start_path, params, sink)
 }
 
+/// `serialize_string_with_normalizer`: the output for a tree with fullwidth forms of the markup
+/// characters in its character data / attribute values, under a normalizer that turns them into
+/// ASCII, must be the output for the normalised tree without a normalizer (normalise, THEN escape:
+/// '<' and '&' coming from text are never written raw outside script / style; seed C19f).
+fn normalizer_oracle(mk: fn(&mut Xot) -> HVocab, t: &GTree, start_path: &[usize], params: &[HParams], sink: &mut Sink) {
+    let mut rng = crate::common::Rng::new(0x4e0f ^ (t.size() as u64 * 7919 + start_path.len() as u64));
+    let tf = sprinkle_fullwidth(t, &mut rng);
+    if !has_fullwidth(&tf) {
+        sink.stat("normalizer.nothing-to-normalise");
+        return;
+    }
+    let tn = map_tree_fullwidth(&tf);
+    let mut xa = Xot::new();
+    let ha = mk(&mut xa);
+    let mut xb = Xot::new();
+    let hb = mk(&mut xb);
+    let (ra, rb) = match (build(&mut xa, &ha.v, &tf, true), build(&mut xb, &hb.v, &tn, true)) {
+        (Ok(a), Ok(b)) => (a, b),
+        _ => return,
+    };
+    let (na, nb) = (nodes_in_order(&xa, ra), nodes_in_order(&xb, rb));
+    let tpaths = tf.paths();
+    if na.len() != tpaths.len() || nb.len() != tpaths.len() {
+        return;
+    }
+    let idx = match tpaths.iter().position(|p| p.as_slice() == start_path) {
+        Some(i) => i,
+        None => return,
+    };
+    let (sa, sb) = (na[idx], nb[idx]);
+    let results: Vec<(Res, Res)> = {
+        let a: Vec<Res> = {
+            let h = xa.html5();
+            params.iter().map(|p| res_of(guarded(|| h.serialize_string_with_normalizer(to_params(&ha, p), sa, FullwidthNormalizer)))).collect()
+        };
+        let b: Vec<Res> = {
+            let h = xb.html5();
+            params.iter().map(|p| res_of(guarded(|| h.serialize_string(to_params(&hb, p), sb)))).collect()
+        };
+        a.into_iter().zip(b).collect()
+    };
+    for (p, (a, b)) in params.iter().zip(results.iter()) {
+        let same = match (a, b) {
+            (Res::Ok(x), Res::Ok(y)) => x == y,
+            (Res::Err(x, _), Res::Err(y, _)) => x == y,
+            (Res::Panic, Res::Panic) => true,
+            _ => false,
+        };
+        if same {
+            sink.stat("oracle.C19.normalizer-equals-normalised-tree");
+        } else {
+            fail(sink, &Finding { signature: "C19:normalizer-output-differs-from-serialising-the-normalised-tree".to_string(), what: "serialize_string_with_normalizer (fullwidth forms -> ASCII) differs from serialize_string of the normalised tree: the normalizer's output is not escaped".to_string() }, &tf, start_path, p, a);
+        }
+    }
+}
+
 pub fn run_tree_with(mk: fn(&mut Xot) -> HVocab, t: &GTree, start_path: &[usize], params: &[HParams], sink: &mut Sink) {
+    normalizer_oracle(mk, t, start_path, params, sink);
     let mut xot = Xot::new();
     let hv = mk(&mut xot);
     let root = match build(&mut xot, &hv.v, t, true) {
